@@ -365,7 +365,11 @@ class FromSpecifier:
                 op = res.fields["op"]
                 cl = [(nm.replace("C06.range", "C11.from_specifier.atom"), c)
                       for nm, c in range_form_clauses(r, SpecText([(op, pv)]), same=lambda a, c: V.ord(a) == V.ord(c))]
-                cl.append(("C11.from_specifier.installs-the-given-specifier", z3.BoolVal(res.fields.get("_specifier") is r)))
+                # C10: an atom is a cache key compared by (name, op, value, reversed); the view it carries must be the one its own text gives, in
+                # spelling too (`_simplified_form` reads the release length of the bounds): the given specifier may be installed only when the value
+                # is that specifier's own clause text - a zero-padded value must leave the view to be derived from the text
+                inst = res.fields.get("_specifier")
+                cl.append(("C10.from_specifier.installed-view-is-spelled-as-the-value", z3.BoolVal(inst is None or (inst is r and isinstance(res.fields["value"], VersionText)))))
                 cl.append(("C11.from_specifier.not-universal", z3.Not(universal)))
                 return cl
             yield {"name": name, "pre": pre, "thunk": thunk, "post": post, "args": (r,), "describe": describe}
@@ -401,13 +405,15 @@ class FromSpecifier:
                 s = Obj(U_, {"ranges": (left, right), "simplified": SpecStr(spec)})
 
             def post(ex, res, s=s, text=text, op=op):
+                from pyvc.theories.version import PaddedText as PaddedText_
                 if res is None:
                     return [("C11.from_specifier.none-allowed", z3.BoolVal(True))]
                 if not isinstance(res, Obj) or res.cls.name != "MarkerExpression":
                     return [("C11.from_specifier.parsed.returns-atom", z3.BoolVal(False))]
                 val = res.fields["value"]
                 cl = [("C11.from_specifier.parsed.operator-kept", z3.BoolVal(res.fields["op"] == op.rstrip("*"))),
-                      ("C11.from_specifier.installs-the-given-specifier", z3.BoolVal(res.fields.get("_specifier") is s))]
+                      ("C10.from_specifier.installed-view-is-spelled-as-the-value",
+                       z3.BoolVal(res.fields.get("_specifier") is None or (res.fields.get("_specifier") is s and not isinstance(val, PaddedText_))))]
                 if op == "!=":
                     from pyvc.theories.version import PaddedText
                     cl.append(("C11.from_specifier.parsed.excluded-version-kept",
